@@ -1900,6 +1900,10 @@ int xmp_start_player(xmp_context opaque, int rate, int format)
 	if (ctx->state < XMP_STATE_LOADED)
 		return -XMP_ERROR_STATE;
 
+	/* module channels and reserved smix channels share the channel tables */
+	if (smix->chn < 0 || mod->chn + smix->chn > XMP_MAX_CHANNELS)
+		return -XMP_ERROR_INVALID;
+
 	if (ctx->state > XMP_STATE_LOADED)
 		xmp_end_player(opaque);
 
